@@ -93,6 +93,15 @@ def gen_invocation(rng, idx):
     nfields = rng.choice([0, 1, 2, 3, 5])
     used = set(); fields = []; descr = []; pre = []; tick = 0
     for _ in range(nfields):
+        if rng.random() < 0.1 and 'conn.port' not in used and 'conn.peer.id' not in used:
+            # dotted shorthand: a field of a local struct, recorded under its dotted path (with or without a sigil), in any position
+            path, v = rng.choice([('conn.port', 5), ('conn.peer.id', 9)])
+            used.add(path)
+            sig = rng.choice(['', '%', '?', '?'])
+            pre.append('let conn = c10_rt::Conn { port: 5, peer: c10_rt::Peer { id: 9 } };')
+            fields.append(sig + path)
+            descr.append('%s %s #0' % (hx(path), {'': 'v:u8:%d' % v, '%': 'D:%s' % hx(str(v)), '?': 'd:%s' % hx(str(v))}[sig]))
+            continue
         r = rng.random()
         if r < 0.55 or not fields: src, name = (lambda n: (n, n))(rng.choice(IDENT_NAMES))      # (a string-literal name cannot come first: it would be read as the format string)
         else: src, name = rng.choice(OTHER_NAMES)
@@ -124,6 +133,9 @@ def gen_invocation(rng, idx):
     prefix = []
     if rng.random() < 0.4: prefix.append('target: "custom::target"')
     if rng.random() < 0.25: prefix.append('parent: None::<tracing::span::Id>' if False else 'parent: None')
+    # a dotted name cannot come FIRST after a prefix at all ("local ambiguity", a compile error): no prefix then
+    if prefix and fields and fields[0].lstrip('%?') in ('conn.port', 'conn.peer.id'):
+        prefix = []
     # after a `target:` / `parent:` / `name:` prefix the macros have no arm for a LONE bare identifier (it is read as a format
     # string and rejected at compile time): write the shorthand out
     if prefix and len(fields) == 1 and fields[0].lstrip('%?') in IDENT_NAMES:
